@@ -47,7 +47,7 @@ CHECKS["C01"] = dict(
     technique="Coq proof (nested induction on values) over a Gallina marshaller model + in-Coq differential "
               "correspondence on generated WSDL families",
     note="Modelled at the namespace-infoset level; prefix assignment/serialisation is C05, argument binding C08, "
-         "leaf lexical forms C06. rpc/encoded: arrays of arrays and None as an array member are outside the guard.",
+         "leaf lexical forms C06. rpc/encoded: arrays of arrays and None as an array member are outside the guard. Also generated and judged: element refs (incl. nillable targets), non-finite float leaves (coq/C01/Leaves.v over C06's lexical spec), schema attributes named like suds' markup attributes, a second port sharing operation names over different messages on one client.",
 )
 
 CHECKS["C09"] = dict(
@@ -132,7 +132,7 @@ CHECKS["C05"] = dict(
           "is built under all 16 option settings, parsed with expat and compared pairwise and with the model."),
     design="DESIGN.md §5 C05",
     technique="Coq proof over a prefix-level tree model + in-Coq differential correspondence over 16 settings",
-    note="The marshaller that builds the pre-pass tree is C01's model; tokenisation/escaping is C04's.",
+    note="The marshaller that builds the pre-pass tree is C01's model; tokenisation/escaping is C04's. Requests are taken from fresh clients per setting and additionally from one client walked through the settings in shuffled order (coq/C05/History.v: history_irrelevant); control characters in text and attribute values are judged at the token level (coq/C05/Text.v).",
 )
 
 CHECKS["C18"] = dict(
@@ -176,7 +176,7 @@ CHECKS["C20"] = dict(
          "lookalike_names_nothing_in_context) and checked against a named set computed independently by the harness; "
          "content is also delivered as bytearray/memoryview and under file:// and loopback URLs with decoys planted "
          "at the real locations; the XML declaration (standalone yes/no/absent) is a generated dimension "
-         "(standalone_no_is_absent).",
+         "(standalone_no_is_absent). Loads run as histories in one process over multi-directory sites with decoys at every wrongly-resolvable URL and location-less imports (reference_without_location_names_nothing, references_resolve_against_container, load_depends_on_named_documents_only); class-level tables of suds are snapshotted before/after.",
 )
 
 CHECKS["C07"] = dict(
@@ -268,7 +268,7 @@ CHECKS["C12"] = dict(
     note="urljoin is modelled for hierarchical http(s) URLs only; declarations, resolve, set_wrapped, add_methods and "
          "the fingerprint of the client are covered by correspondence; partition_equivalent (declaration tables of any "
          "partition equal the single document's, as key sets, under explicit guards incl. no chameleon include) and "
-         "the guarded schema-level reachable-only statement are proved on the model.",
+         "the guarded schema-level reachable-only statement are proved on the model. Each layout runs in a forked child under CPU-time and memory limits: a load that does not finish or exhausts memory is a failing input (C12:load-does-not-terminate), not a harness error. URLs with query strings/fragments, same-named element/type pairs split across documents and same-namespace roots binding one prefix to different URIs are generated.",
 )
 
 CHECKS["C02"] = dict(
@@ -330,7 +330,7 @@ CHECKS["C08"] = dict(
     design="DESIGN.md §5 C08",
     technique="Coq proof (ghost-machine simulation + rose-tree induction) + exhaustive small-scope correspondence",
     note="Document.param_defs/Iter ancestry, Typed.translate/sort, envelope bytes and TypeError texts are covered by "
-         "the harness only; a bare multi-part document message is not expressed as a tree.",
+         "the harness only; a bare multi-part document message is not expressed as a tree. Real-client cases include services with 2-3 ports sharing an operation name over different parameter structures and clients whose WSDL object comes from an ObjectCache filled under the opposite unwrap option; argument values range over None, falsy-but-defined and truthy (reject_depends_on_definedness_only).",
 )
 
 CHECKS["C11"] = dict(
@@ -353,7 +353,7 @@ CHECKS["C11"] = dict(
     technique="Coq refinement proof (invariant + simulation over histories; schedule theorem under a format "
               "hypothesis) + in-Coq differential correspondence incl. torn-write sweep",
     note="H1-H3 are theorem hypotheses (Section variables), validated empirically by the torn-write and overlay "
-         "sweeps against pickle and the SAX parser; the concurrency theorem assumes whole-entry writes.",
+         "sweeps against pickle and the SAX parser; the concurrency theorem assumes whole-entry writes. coq/C11/Preempt.v: get/purge re-stated over preemptible system calls — they never raise under ANY schedule of removals/clears by other instances (get_never_raises_preempted); the harness preempts every system call of get/purge/put by a second instance's purge/clear/unlink and by failing os.remove. In-memory caches handing back live objects and DocumentPlugin hooks on cache hits are modelled (MemReader.v, parsed_hook_on_every_open).",
 )
 
 CHECKS["C19"] = dict(
